@@ -34,9 +34,12 @@ struct Ctx {
 };
 static Ctx C;
 
+/* blocks of tens of kilobytes are only written when the peers' receive queues are at least 2 KiB throughout the run: through a 5-byte queue such a
+   block takes more steps than a run has (that would be a slow run, not a lost byte) */
+static bool bigWritesAllowed() { return simdrv::knob(*C.spec, "cap", 1 << 20) >= 2048; }
 static void doWrite(int c, size_t n, const char* where) {
   Cl& k = C.cl[c]; if (k.closed || !k.client || n == 0) return;
-  static unsigned char buf[4096]; if (n > sizeof buf) n = sizeof buf;
+  static unsigned char buf[81920]; if (n > sizeof buf) n = sizeof buf;
   for (size_t i = 0; i < n; ++i) buf[i] = codeByte(c, k.accepted + i);
   usize postponed = 12345678;
   bool wasBacklog = k.backlog > 0;
@@ -120,7 +123,7 @@ struct DriverCb : public Server::Timer::ICallback {
       const Op& op = s.plan[C.pos++]; int c = (int)(op.a[0] % C.nc); Cl& k = C.cl[c];
       logEvent("script", op.code, c, op.a[1]);
       switch (op.code) {
-      case S_WRITE: doWrite(c, (size_t)(1 + op.a[1] % 3000), "timer"); break;
+      case S_WRITE: doWrite(c, (op.a[2] % 8 == 7 && bigWritesAllowed()) ? (size_t)(16385 + op.a[1] % 60000) /* a block the socket layer may hand over in several pieces */ : (size_t)(1 + op.a[1] % 3000), "timer"); break;
       case S_SUSPEND: if (!k.closed) { k.client->suspend(); k.suspended = true; if (!k.client->isSuspended()) fail("C13/isSuspended_wrong", "isSuspended() false after suspend()"); } break;
       case S_RESUME: if (!k.closed) { k.suspended = false; k.client->resume(); } break;
       case S_READMODE: k.readMode = (int)(op.a[1] % 2); break;
@@ -160,7 +163,7 @@ static void peerTask(void* a) {
     case P_READ: { size_t n = 1 + op.a[1] % 2000; ssize_t r = recv(k.farFd, buf, n, 0); if (r > 0) peerRecvCheck(c, buf, r); else goto out; break; }
     case P_STALL: { static const int ms[] = {1, 3, 10, 40}; usleep(ms[op.a[1] % 4] * 1000); break; }
     case P_SEND: { size_t n = 1 + op.a[1] % 300; for (size_t q = 0; q < n; ++q) buf[q] = codeByte(100 + c, k.peerSent + q); fcntl(k.farFd, F_SETFL, O_NONBLOCK); ssize_t r = send(k.farFd, buf, n, 0); fcntl(k.farFd, F_SETFL, 0); if (r > 0) k.peerSent += r; break; }
-    case P_CAP: { static const int caps[] = {1, 7, 64, 500, 4096}; simnet::setCapacity(k.farFd, caps[op.a[1] % 5]); break; }
+    case P_CAP: { static const int caps[] = {1, 7, 64, 500, 4096, 16384, 32768}; simnet::setCapacity(k.farFd, bigWritesAllowed() ? caps[4 + op.a[1] % 3] : caps[op.a[1] % 4]); break; }
     case P_CLOSE: k.peerClosedByScript = true; logEvent("peer_close", c); k.far->close(); k.peerDone = true; return;
     }
   }
@@ -207,7 +210,7 @@ static void generate(RunSpec& s, int tier) {
   bool readFocus = r(4) == 0; if (readFocus && nc < 2) nc = 2 + (int)r(2);     /* a quarter of the plans stress the read side: peers mostly send, the script mostly suspends/resumes (also from inside onRead) */
   s.knobs["clients"] = nc; s.knobs["read_focus"] = readFocus;
   bool faulty = r(4) != 0; s.knobs["faulty"] = faulty;
-  static const int caps[] = {1, 5, 32, 200, 1024, 2048, 65536}; s.knobs["cap"] = faulty ? caps[r(7)] : 1 << 20;
+  static const int caps[] = {1, 5, 32, 200, 1024, 2048, 65536, 16384, 32768, 49152}; s.knobs["cap"] = faulty ? caps[r(10)] : 1 << 20;
   static const int pct[] = {0, 5, 20, 50}; s.knobs["send_fault_pct"] = faulty ? pct[r(4)] : 0; s.knobs["recv_fault_pct"] = faulty ? pct[r(4)] : 0; s.knobs["epoll_fault_pct"] = faulty ? pct[r(4)] : 0; s.knobs["eintr_pct"] = faulty && r(3) == 0 ? 5 : 0;
   s.knobs["sync_switch_log2"] = 1 + r(4);
   int ns = 4 + (int)r(20);
@@ -217,6 +220,7 @@ static void generate(RunSpec& s, int tier) {
     o.code = k < 50 ? S_WRITE : k < 58 ? S_SUSPEND : k < 66 ? S_RESUME : k < 70 ? S_READMODE : k < 76 ? S_BUFQ : k < 84 ? S_WAIT : k < 91 ? S_INWRITE : k < 95 ? S_INREAD : k < 98 ? S_INSUSPEND : S_INRESUME;
     if (readFocus && r(10) < 6) { uint64_t q = r(10); o.code = q < 4 ? S_INSUSPEND : q < 6 ? S_INRESUME : q < 8 ? S_RESUME : q < 9 ? S_SUSPEND : S_WAIT; }
     if (o.code == S_WRITE && r(3) == 0) o.a[1] = r(40);
+    if (o.code == S_WRITE) o.a[2] = (int64_t)r(8);
     if (o.code == S_INSUSPEND || o.code == S_INRESUME) { o.a[2] = (int64_t)r(2); if (o.a[2] && r(2)) o.a[1] = o.a[0]; }   /* inside onRead or inside onWrite; in onWrite often on the client itself */
     s.plan.push_back(o);
   }
